@@ -63,7 +63,11 @@ pub fn gen_avro_case(c: &mut Case, cross: bool) -> AvroCase {
         }
     }
     let rows = gen_rows(&mut c.tape);
-    let vcfg = ValCfg { nan: true, max_str: 16, max_list: 4, ..ValCfg::default() };
+    let long = c.tape.chance(80);
+    if long {
+        c.class("long-values");
+    }
+    let vcfg = ValCfg { nan: true, max_str: if long { 1100 } else { 16 }, max_list: 4, ..ValCfg::default() };
     let mut cols: LBatch = vec![];
     for (f, sp) in fields.iter().zip(&specials) {
         let col: Vec<LValue> = match sp {
